@@ -9,7 +9,9 @@ VERIF = os.path.dirname(os.path.dirname(HERE))
 CFGS = [[8, 7, 0, 0, 0, 0], [9, 0x59, 0, 0, 0, 0], [16, 0x1021, 0, 0, 0, 0], [32, 0x04C11DB7, 0, 0, 0, 0], [7, 0x27, 0, 0, 0, 0],
         [16, 0x1021, 0xFFFF, 0, 0, 0], [16, 0x8005, 0, 0, 1, 1], [32, 0x04C11DB7, 0xFFFFFFFF, 0xFFFFFFFF, 1, 1],
         [12, 0x80F, 0, 0, 0, 0], [24, 0x864CFB, 0xB704CE, 0, 0, 0], [5, 0x15, 0, 0, 0, 0], [8, 0x07, 0, 0x55, 0, 1], [10, 0x233, 0, 0, 0, 0],
-        [3, 0x3, 0x7, 0x7, 0, 1], [15, 0x4599, 0, 0, 0, 0]]
+        [3, 0x3, 0x7, 0x7, 0, 1], [15, 0x4599, 0, 0, 0, 0],
+        [8, 0x31, 0, 0, 0, 0], [9, 0x119, 0, 0, 0, 0], [32, 0x1EDC6F41, 0, 0, 0, 0], [16, 0x3D65, 0, 0xFFFF, 0, 0],
+        [12, 0xF13, 0, 0, 0, 0], [24, 0x5D6DCB, 0, 0, 0, 0], [10, 0x3D9, 0, 0, 0, 0], [5, 0x09, 0, 0, 0, 0]]
 CODES = [(7, 4), (13, 9), (15, 11), (16, 11), (17, 12), (20, 8), (16, 7)]
 TOK_NAMES_REQ = ["request-id", "interval", "oneshot-trigger", "ret-info", "ret-info", "ret-info", "trg-condition", "no-such-token", 0x50, 0x51, 0x52, 0x53, 0x22]
 TOK_NAMES_ANS = ["request-id", "result", "result", "result", "info-time", "speed-hor", "no-such-token", 0x37, 0x38, 0x39, 0x22]
@@ -34,8 +36,8 @@ def add_model_entry_points(ep, h):
         return [["l", [I(x) for x in c]], I(r.randrange(2)), data(r, c)]
 
     def ham(r, which):
-        i = r.randrange(7 if which != "cac" else 5) if r.random() < 0.95 else r.randrange(8)
-        n, k = CODES[i % 7]
+        i = r.randrange(7 if which != "cac" else 5)  # index into the worker's list of code classes (Golay / QR have no repair)
+        n, k = CODES[i]
         ln = k if which == "gen" else n
         if r.random() < 0.05:
             ln = r.choice([0, ln - 1, ln + 1])
